@@ -21,6 +21,11 @@ type Bias struct {
 	HeadOnly           bool // no compaction / reopen (C02)
 	Snapshot           *bool
 	MaxSeries          int
+	// Churn adds series eviction (stale / selected series compaction), unclean restarts,
+	// appends with previously returned refs and fast startup; TagValues makes every value
+	// identify its series.
+	Churn     int
+	TagValues bool
 }
 
 var baseTimes = []int64{0, -5000, 1_000_000, 1 << 40, -(1 << 40), 999_997, -1_000_003}
@@ -55,6 +60,9 @@ func GenConfig(t *rapid.T, b Bias) Config {
 	if b.Snapshot != nil {
 		c.Snapshot = *b.Snapshot
 	}
+	if b.Churn > 0 {
+		c.FastStartup = rapid.Bool().Draw(t, "faststartup")
+	}
 	return c
 }
 
@@ -77,6 +85,7 @@ type genState struct {
 	staleLock map[[2]int]bool
 	// known finding delete-hides-later-ooo-append: requested delete ranges per series
 	deleted map[int][][2]int64
+	tag     bool
 }
 
 func (g *genState) closeAll(t *rapid.T) {
@@ -148,6 +157,22 @@ func (g *genState) genValue(t *rapid.T, s int) tm.Val {
 	if lv, ok := g.lastV[s]; ok && rapid.IntRange(0, 5).Draw(t, "samevalue") == 0 {
 		return lv
 	}
+	if g.tag {
+		// every value identifies the series it was appended to (stale markers cannot)
+		var v tm.Val
+		switch rapid.IntRange(0, 9).Draw(t, "tvkind") {
+		case 0, 1:
+			v = tm.Val{Kind: tm.KHist, H: s + 5*rapid.IntRange(0, 1).Draw(t, "thid")}
+		case 2:
+			v = tm.Val{Kind: tm.KFHist, H: s + 5*rapid.IntRange(0, 1).Draw(t, "thid")}
+		case 3:
+			v = tm.Val{Kind: tm.KStale}
+		default:
+			v = tm.Val{Kind: tm.KFloat, F: math.Float64bits(float64(s*1000 + rapid.IntRange(0, 30).Draw(t, "tf")))}
+		}
+		g.lastV[s] = v
+		return v
+	}
 	var v tm.Val
 	switch rapid.IntRange(0, 19).Draw(t, "vkind") {
 	case 0, 1, 2:
@@ -200,6 +225,7 @@ func GenHistory(t *rapid.T, b Bias) History {
 	g := &genState{cfg: cfg, m: tm.New(cfg.NSeries, cfg.ChunkRange, cfg.OOOWindow), apps: map[int]*tm.Appender{}, lastV: map[int]tm.Val{},
 		creator: map[int]int{}, established: map[int]bool{}, staleLock: map[[2]int]bool{}, deleted: map[int][][2]int64{}}
 	g.allowTaint = rapid.IntRange(0, 7).Draw(t, "allowtaint") == 0
+	g.tag = b.TagValues
 	g.base = rapid.SampledFrom(baseTimes).Draw(t, "base")
 	g.now = g.base
 	if b.MaxSteps == 0 {
@@ -219,6 +245,9 @@ func GenHistory(t *rapid.T, b Bias) History {
 			wop{"cleantomb", 1 + b.Deletes/2}, wop{"mmap", 2}, wop{"reopen", 2 + b.Reopens})
 	} else {
 		table = append(table, wop{"flush", 1}, wop{"mmap", 1})
+	}
+	if b.Churn > 0 && !b.HeadOnly {
+		table = append(table, wop{"evictstale", b.Churn}, wop{"evictsel", b.Churn}, wop{"crashreopen", b.Churn})
 	}
 	var ks []string
 	for _, w := range table {
@@ -289,7 +318,7 @@ func GenHistory(t *rapid.T, b Bias) History {
 			if ts > g.now {
 				g.now = ts
 			}
-			g.ops = append(g.ops, Op{K: "add", A: slot, S: s, T: ts, V: v, Reject: rej})
+			g.ops = append(g.ops, Op{K: "add", A: slot, S: s, T: ts, V: v, Reject: rej, OldRef: b.Churn > 0 && rapid.IntRange(0, 2).Draw(t, "oldref") == 0})
 		case "commit", "rollback":
 			var slots []int
 			for _, s := range []int{0, 1, 2} {
@@ -381,6 +410,37 @@ func GenHistory(t *rapid.T, b Bias) History {
 				g.m.OOOCompacted()
 			}
 			g.ops = append(g.ops, Op{K: k})
+		case "evictstale", "evictsel":
+			g.closeAll(t)
+			g.established, g.creator = map[int]bool{}, map[int]int{}
+			var sel []int
+			if k == "evictsel" {
+				n := rapid.IntRange(1, 2).Draw(t, "nevict")
+				for i := 0; i < n; i++ {
+					sel = append(sel, rapid.IntRange(0, cfg.NSeries-1).Draw(t, "evictsel"))
+				}
+			}
+			for i, ser := range g.m.Series {
+				evict := false
+				if k == "evictstale" {
+					evict = ser.HasLast && ser.LastStale
+				} else {
+					for _, x := range sel {
+						if x == i {
+							evict = true
+						}
+					}
+				}
+				if evict {
+					ser.HasLast = false
+				}
+			}
+			g.ops = append(g.ops, Op{K: k, Sel: sel})
+		case "crashreopen":
+			g.closeAll(t)
+			g.established, g.creator = map[int]bool{}, map[int]int{}
+			g.m.Restarted(false, g.m.Head.MinValid)
+			g.ops = append(g.ops, Op{K: "crashreopen"})
 		case "reopen":
 			g.closeAll(t)
 			g.established, g.creator = map[int]bool{}, map[int]int{}
